@@ -40,7 +40,7 @@ def out_finality(chk, repo, key, clause):
                 start = i
                 break
     if buf is None:
-        raise AnalysisError(f'{key}: no call forwards the out= parameter')
+        return out_finality_by_value(chk, repo, key, clause)
     names = {buf}
     n = 0
     for s in stmts[start + 1:]:
@@ -73,6 +73,46 @@ def out_finality(chk, repo, key, clause):
             chk.ob(clause, 'E-finality', key, 'returned object', ok,
                    f'`{seg(f, s)}` does not return the buffer `{buf}` that received the result'
                    if not ok else f'returns `{buf}`', f.loc(s))
+    return n
+
+
+def out_finality_by_value(chk, repo, key, clause):
+    """The same obligation read off the event log (helpers inlined): some call writes its result into the caller's
+    buffer, every later step up to the return updates that object in place, and that object is what is returned."""
+    from ..rules import run as analyse, returns, fmt, S, conds_str
+    from ..nf import Poly, NONE
+    from ..expr import arith
+    f = repo.func(key)
+    out = S('out')
+    _, paths, _ = analyse(repo, f, config={'out': out})
+    n = 0
+    for p in returns(paths):
+        if any(pol and fmt(c) == 'is(out, (None))' for c, pol, _ in p.conds):
+            continue            # no buffer supplied
+        chain = None
+        for e in p.events:
+            if e.kind != 'write':
+                continue
+            how = e.data.get('how')
+            if how == 'out=' and e.target == out:
+                chain = e.data.get('value')
+            elif chain is not None and how == 'out=' and e.target == chain:
+                chain = e.data.get('value')
+            elif chain is not None and how == 'augassign' and e.target == chain:
+                chain = arith(e.data.get('op'), chain, e.data.get('value'))
+            elif chain is not None and how == 'setitem' and e.target == chain:
+                chain = nf.app('setitem', chain, e.data.get('key'), e.data.get('value'))
+        n += 1
+        if chain is None:
+            chk.ob(clause, 'E-finality', key, f'the result is written into the caller\'s buffer [{conds_str(p)[:60]}]', False,
+                   'no call writes its result into `out` on this path', f.loc(p.node))
+            continue
+        chk.ob(clause, 'E-finality', key, f'returned object [{conds_str(p)[:60]}]', p.ret == chain,
+               'returns the buffer after in-place updates only' if p.ret == chain else
+               f'returns {fmt(p.ret)[:100]}, but the buffer holds {fmt(chain)[:100]}: a step after the write into `out` '
+               f'made a new array', f.loc(p.node))
+    if not n:
+        raise AnalysisError(f'{key}: no returning path with out given')
     return n
 
 
